@@ -313,6 +313,17 @@ def sweep (proj : Req α → Res α) (cfg : Cfg α) (net : Net α) (u : Bool) (o
     (s : State α) : State α :=
   order.foldl (stepEdge proj cfg net u) s
 
+/-- No assert of `_damp` / `_rescale` fires in the loop body for edge `i` (the real code raises otherwise). -/
+def stepOk (proj : Req α → Res α) (cfg : Cfg α) (net : Net α) (u : Bool) (s : State α) (i : Nat) : Bool :=
+  let s1 := tinyCheck cfg net u i s
+  let rq := prep cfg net u i s1
+  rq.ok && resOk rq (proj rq)
+
+/-- No assert fires during `propagate_likelihood` over `order`. -/
+def sweepOk (proj : Req α → Res α) (cfg : Cfg α) (net : Net α) (u : Bool) : List Nat → State α → Bool
+  | [], _ => true
+  | i :: rest, s => stepOk proj cfg net u s i && sweepOk proj cfg net u rest (stepEdge proj cfg net u s i)
+
 /-- One node of `propagate_prior` with the penalty `pen` found by the EM loop. -/
 def priorNode (cfg : Cfg α) (pen : α) (s : State α) (n : Nat) : State α :=
   let sc := aget s.scale n
@@ -373,14 +384,20 @@ def prior (cfg : Cfg α) (free : Array Bool) (cnt reltol : α) (maxitt : Nat) (s
   if (freeList free).isEmpty then s
   else priorWith cfg free (emPenalty (priorCavities free s) cnt reltol maxitt) s
 
+/-- The assert of `_rescale` on the new posterior of free node `n` in `propagate_prior`. -/
+def priorNodeOk (pen : α) (s : State α) (n : Nat) : Bool :=
+  rescaleOk ((aget s.post n).1,
+    (cavity (aget s.post n) (message (aget s.node n).r (aget s.scale n)) 1).2 + pen)
+
+def priorRunOk (cfg : Cfg α) (pen : α) : List Nat → State α → Bool
+  | [], _ => true
+  | n :: rest, s => priorNodeOk pen s n && priorRunOk cfg pen rest (priorNode cfg pen s n)
+
 /-- The asserts of `propagate_prior`: `penalty > 0` and those of `_rescale` on each new posterior. -/
-def priorOk (free : Array Bool) (cnt reltol : α) (maxitt : Nat) (s : State α) : Bool :=
+def priorOk (cfg : Cfg α) (free : Array Bool) (cnt reltol : α) (maxitt : Nat) (s : State α) : Bool :=
   (freeList free).isEmpty ||
   (let pen := emPenalty (priorCavities free s) cnt reltol maxitt
-   decide (0 < pen) && (freeList free).all (fun n =>
-     let po := aget s.post n
-     let cav := cavity po (message (aget s.node n).r (aget s.scale n)) 1
-     rescaleOk (po.1, cav.2 + pen)))
+   decide (0 < pen) && priorRunOk cfg pen (freeList free) s)
 
 /-- Parameters of `iterate`. -/
 structure Sched (α : Type) where
@@ -403,6 +420,18 @@ def iterate (proj : Req α → Res α) (cfg : Cfg α) (net : Net α) (sch : Sche
 def iterateN (proj : Req α → Res α) (cfg : Cfg α) (net : Net α) (sch : Sched α) : Nat → State α → State α
   | 0, s => s
   | k + 1, s => iterateN proj cfg net sch k (iterate proj cfg net sch s)
+
+/-- No assert of the real code fires during one `iterate`. -/
+def iterateOk (proj : Req α → Res α) (cfg : Cfg α) (net : Net α) (sch : Sched α) (s : State α) : Bool :=
+  let s1 := sweep proj cfg net true sch.blockOrder s
+  let s2 := sweep proj cfg net false sch.edgeOrder s1
+  sweepOk proj cfg net true sch.blockOrder s && sweepOk proj cfg net false sch.edgeOrder s1 &&
+    (!sch.regularise || priorOk cfg sch.free sch.cnt sch.reltol sch.maxitt s2)
+
+/-- No assert fires during `k` rounds of `iterate`. -/
+def iterateNOk (proj : Req α → Res α) (cfg : Cfg α) (net : Net α) (sch : Sched α) : Nat → State α → Bool
+  | 0, _ => true
+  | k + 1, s => iterateOk proj cfg net sch s && iterateNOk proj cfg net sch k (iterate proj cfg net sch s)
 
 end EM
 
@@ -458,5 +487,69 @@ def starProj (other : Req α → Res α) (rq : Req α) : Res α :=
   else other rq
 
 end Star
+
+section Outputs
+variable {α : Type} [Add α] [Sub α] [Mul α] [Div α] [OfNat α 0] [OfNat α 1] [OfNat α 2]
+  [LT α] [LE α] [DecidableLT α] [DecidableLE α]
+
+/-
+    def approximate_gamma_mom(mean, variance):            # tsdate/approx.py
+        if not (mean > 0.0 and variance > 0.0): raise ...
+        shape = mean**2 / variance; rate = mean / variance
+        return shape - 1.0, rate
+    # tail of every `*_projection` wrapper:
+        if not _valid_moments(mn, va): return np.nan, <skip>
+        proj = approximate_gamma_mom(mn, va)
+-/
+/-- `approximate_gamma_mom`. -/
+def gammaMom (mn va : α) : α × α := (mn * mn / va - 1, mn / va)
+
+/-- Tail of the projection wrappers: `none` stands for NaN moments or the skip. -/
+def wrapTail (m : Option (α × α)) : Option (α × α) :=
+  match m with
+  | none => none
+  | some (mn, va) => if 0 < mn ∧ 0 < va then some (gammaMom mn va) else none
+
+/-- `node_moments` / `mutation_moments`: mean `(α+1)/β`, variance `mean/β`. -/
+def momentsOf (x : α × α) : α × α := ((x.1 + 1) / x.2, (x.1 + 1) / x.2 / x.2)
+
+/-- End of `infer`: `switched = mutation_phase < 0.5; mutation_phase[switched] = 1 - mutation_phase[switched]`
+(`none` = NaN: comparisons are false, the entry stays NaN). -/
+def flipPhase (ph : Option α) : Option α :=
+  ph.map (fun x => if x < 1 / 2 then 1 - x else x)
+
+/-
+    def approximate_gamma_iqr(q1, q2, x1, x2, max_shape):            # tsdate/approx.py
+        def upper_bound(q, x): return max_shape - 1, gammainc_inv(max_shape, q) / x
+        if x2 == x1: return upper_bound(q1, x1)
+        if not (q2 > q1 and x2 > x1): raise
+        alpha = log(q2 / q1) / log(x2 / x1)
+        if alpha > max_shape: return upper_bound(q1, x1)
+        <Newton iteration on alpha; raise after too many iterations>
+        if not alpha > 0: raise
+        if alpha > max_shape: return upper_bound(q1, x1)
+        return alpha - 1, gammainc_inv(alpha, q1) / x1
+    # piecewise_scale_posterior (tsdate/rescaling.py):
+        alpha, beta = approximate_gamma_iqr(quant_lower, quant_upper, lower[i], upper[i], max_shape)
+        beta = (alpha + 1) / midpt[i]
+-/
+/-- Decision logic of `approximate_gamma_iqr` around the opaque pieces: `alpha0` (the log ratio), `newton`
+(result of the Newton iteration started at `alpha0`, `none` = did not converge) and `ginv` (`gammainc_inv`).
+`none` = the real code raises. -/
+def iqrFit (q1 q2 x1 x2 maxShape alpha0 : α) (newton : Option α) (ginv : α → α → α) : Option (α × α) :=
+  let upper : α × α := (maxShape - 1, ginv maxShape q1 / x1)
+  if x1 ≤ x2 ∧ x2 ≤ x1 then some upper
+  else if ¬ (q1 < q2 ∧ x1 < x2) then none
+  else if maxShape < alpha0 then some upper
+  else match newton with
+    | none => none
+    | some a => if ¬ 0 < a then none else if maxShape < a then some upper else some (a - 1, ginv a q1 / x1)
+
+/-- The reprojection step of `piecewise_scale_posterior` for one node. -/
+def reproject (q1 q2 x1 x2 maxShape alpha0 : α) (newton : Option α) (ginv : α → α → α) (midpt : α) :
+    Option (α × α) :=
+  (iqrFit q1 q2 x1 x2 maxShape alpha0 newton ginv).map (fun ab => (ab.1, (ab.1 + 1) / midpt))
+
+end Outputs
 
 end Tsdate.EP
